@@ -1,6 +1,7 @@
 package c05
 
 import (
+	"bytes"
 	"testing"
 
 	"github.com/ossrs/go-oryx-lib/amf0"
@@ -50,6 +51,7 @@ func TestVerif_C05_Incremental(t *testing.T) {
 			rootLib, rootSet, rootAbs := mkContainer(r)
 			nodes := []*node{{rootLib, rootSet, rootAbs, 0, nil}}
 			steps := r.Range(3, 30)
+			kept := map[amf0.Amf0][2][]byte{}
 			check := func(what string, nd *node) bool {
 				// read sizes on a PRNG-chosen ancestor first (this is what would fill a cache), then on the root
 				targets := []amf0.Amf0{rootLib}
@@ -62,6 +64,13 @@ func TestVerif_C05_Incremental(t *testing.T) {
 						m.Violationf("c05:marshal-error:incremental", rep, "%v", err)
 						return false
 					}
+					// the bytes returned for this container the last time are the caller's: marshalling it again, after it was
+					// changed, must not have touched them (a per-object encode buffer would)
+					if k, ok := kept[tg]; ok && !bytes.Equal(k[0], k[1]) {
+						m.Violationf("c05:marshalled-bytes-changed-by-a-later-marshal:incremental", rep, "the %d bytes MarshalBinary returned earlier for this container changed when it was marshalled again after %s", len(k[1]), what)
+						return false
+					}
+					kept[tg] = [2][]byte{b, append([]byte(nil), b...)}
 					if tg.Size() != len(b) {
 						m.Violationf("c05:size-ne-marshal-len:incremental", rep, "after %s at depth %d: Size()=%d but MarshalBinary gives %d bytes (container read #%d of %d)", what, nd.depth, tg.Size(), len(b), ti, len(targets))
 						return false
